@@ -8,3 +8,26 @@ def _trace(prop, tier, seed, t0):
 
 
 CHECKS = {p: _trace for p in TRACE_PLANS}
+
+HOOK_COMMITS = ["24eb488"]
+NOT_APPLICABLE = {}
+
+_TRACE_NOTE = ("Trusted: the TLA+ rules (spec/Universe.tla, Conflict.tla, Trace_Solve.tla) state the property; TLC evaluates them; "
+               "the harness provider answers as the universe record says; hooks (cfg resolvo_verif) report solver steps faithfully. "
+               "Coverage is the set of generated universes/schedules, not all inputs.")
+
+
+def _m(text, design_ref, technique, level="model_checking", note=_TRACE_NOTE):
+    return {"level": level, "text": text, "design_ref": design_ref, "technique": technique, "note": note}
+
+
+META = {
+    "C01": _m("Every execution of the real solver over generated universes (sync/async, all hint patterns, soft requirements) is recorded and validated by TLC against the declarative validity rules of Universe.tla; with hooks every clause must be a true fact and the final assignment must falsify no clause.", "6 C01", "TLA+ trace validation (TLC) of recorded solver executions against a declarative oracle"),
+    "C02": _m("Verdicts are compared by TLC with the brute-force Satisfiable operator on small universes and certified on all sizes by an in-TLC proof check of the hook stream (true facts, unit reasons, RUP learnt clauses, RUP refutation); metamorphic variants (candidate order, ids, hints, activity parameters).", "6 C02", "TLA+ trace validation (TLC): oracle comparison + RUP proof checking of the recorded clause/learning stream"),
+    "C03": _m("Every conflict graph of generated unsatisfiable problems is checked by TLC edge by edge against the universe, for group exactness, reachability and self-containedness (no model of the displayed facts); with hooks each learnt clause must follow from its recorded antecedents and the reported clause set must be unsatisfiable.", "6 C03", "TLA+ trace validation (TLC) of serialized conflict graphs and antecedent chains"),
+    "C05": _m("Supportedness of every returned solution is evaluated by TLC; undo events must truncate the trail to a prefix and the solution must equal the true solvable variables of the final trail.", "6 C05", "TLA+ trace validation (TLC)"),
+    "C07": _m("On generated conflict-free universes (premise re-evaluated by TLC) the returned selection must equal the first-choice closure, under all hint patterns, candidate permutations and async schedules.", "6 C07", "TLA+ trace validation (TLC)"),
+    "C08": _m("TLC decides DirectBestFeasible by seeded search and requires the best direct candidates in the result, for several activity parameters and hint patterns.", "6 C08", "TLA+ trace validation (TLC)"),
+    "C09": _m("Every provider call of a run (and of histories on one solver) is judged by TLC: never repeated, causally allowed by records already returned, and exactly the closure's calls on conflict-free problems.", "6 C09", "TLA+ trace validation (TLC) of the provider call stream"),
+    "C14": _m("Soft-requirement problems: validity with the documented exemption, no error when the hard problem is satisfiable, and inclusion of the cleanly compatible prefix (SoftObliged), all evaluated by TLC.", "6 C14", "TLA+ trace validation (TLC)"),
+}
